@@ -164,6 +164,61 @@ func sourceWriters() string {
 	return strings.Join(out, ";")
 }
 
+// sourceClocks: every read of the wall clock (time.Now, time.Since, time.Until) in the four files the tables live in,
+// and every comparison of time stamps (Sub, Before, After), per enclosing function with its count: "file:Recv.func:Now*1+Since*1;...".  A NEW clock read there changes the line.
+func sourceClocks() string {
+	repo := os.Getenv("VERIF_REPO")
+	if repo == "" {
+		repo = "/repo"
+	}
+	var out []string
+	for _, file := range []string{"hosttable.go", "mactable.go", "session.go", "layer_frame.go", "notification.go"} {
+		fset := token.NewFileSet()
+		f, err := parser.ParseFile(fset, repo+"/"+file, nil, 0)
+		if err != nil {
+			return "parse-error:" + file
+		}
+		for _, d := range f.Decls {
+			fd, ok := d.(*ast.FuncDecl)
+			if !ok || fd.Body == nil {
+				continue
+			}
+			name := fd.Name.Name
+			if fd.Recv != nil && len(fd.Recv.List) == 1 {
+				t := fd.Recv.List[0].Type
+				if s, ok := t.(*ast.StarExpr); ok {
+					t = s.X
+				}
+				if id, ok := t.(*ast.Ident); ok {
+					name = id.Name + "." + name
+				}
+			}
+			cnt := map[string]int{}
+			ast.Inspect(fd.Body, func(n ast.Node) bool {
+				if se, ok := n.(*ast.SelectorExpr); ok {
+					if id, ok := se.X.(*ast.Ident); ok && id.Name == "time" && (se.Sel.Name == "Now" || se.Sel.Name == "Since" || se.Sel.Name == "Until") {
+						cnt[se.Sel.Name]++
+					} else if se.Sel.Name == "Sub" || se.Sel.Name == "Before" || se.Sel.Name == "After" {
+						cnt["cmp"]++ // a comparison / difference of time stamps (time.Time methods)
+					}
+				}
+				return true
+			})
+			if len(cnt) == 0 {
+				continue
+			}
+			var ks []string
+			for k, v := range cnt {
+				ks = append(ks, k+"*"+strconv.Itoa(v))
+			}
+			sort.Strings(ks)
+			out = append(out, file+":"+name+":"+strings.Join(ks, "+"))
+		}
+	}
+	sort.Strings(out)
+	return strings.Join(out, ";")
+}
+
 func deadlinesAccepted(probe, offline, purge time.Duration) bool {
 	nic := &packet.NICInfo{HomeLAN4: lib.HomeLAN, HostAddr4: packet.Addr{MAC: lib.HostMAC, IP: lib.HostIP4},
 		RouterAddr4: packet.Addr{MAC: lib.RouterMAC, IP: lib.RouterIP4}, HostLLA: netip.PrefixFrom(lib.HostLLA, 64),
